@@ -319,8 +319,8 @@ def defer_paths(fns, f):
 def parse_facts(text):
     """output of the kinds harness (see harness/c04/main.go) ->
     {"D": {line: (order, kind, clo, nargs, dom, cyc)}, "X": {line: (ownerline, clo, nargs)}, "L": {line: (order, clo, nargs)},
-     "Z": {line}, "S": {fnline: {order...}}, "K": {fnline}, "I": {fnline}, "N": {fnline}}"""
-    facts = {"D": {}, "X": {}, "L": {}, "Z": set(), "S": {}, "K": set(), "I": set(), "N": set()}
+     "Z": {line}, "S": {fnline: {order...}}, "K": {fnline}, "I": {fnline}, "N": {fnline}, "Q": {fnline}}"""
+    facts = {"D": {}, "X": {}, "L": {}, "Z": set(), "S": {}, "K": set(), "I": set(), "N": set(), "Q": set()}
     for ln in text.split("\n"):
         f = ln.split()
         if not f:
@@ -335,7 +335,7 @@ def parse_facts(text):
             facts["Z"].add(int(f[2]))
         elif f[0] == "S" and len(f) == 3:
             facts["S"].setdefault(int(f[1]), set()).add(int(f[2]))
-        elif f[0] in ("K", "I", "N") and len(f) == 2:
+        elif f[0] in ("K", "I", "N", "Q") and len(f) == 2:
             facts[f[0]].add(int(f[1]))
     return facts
 
@@ -358,7 +358,7 @@ def layouts(case, facts):
         ds = defer_paths(fns, f)
         fl = case["_fline"].get(f)
         inf = {"entry": 1 if fl in facts["K"] else 0, "implicit": 1 if fl in facts["I"] else 0, "dropped": [],
-               "nodom": 1 if fl in facts["N"] else 0, "inverted": 0}
+               "nodom": 1 if fl in facts["N"] else 0, "inverted": 0, "norun": 1 if fl in facts["Q"] else 0}
         info[f] = inf
         if inf["entry"]:
             slots = [(o, None) for o in facts["S"].get(fl, ())]
@@ -598,7 +598,7 @@ def encode(case, lay, index, info=None):
     for f in range(len(fns)):
         ss = ",".join("%s.%d.%d.%d" % (s["kind"][0], s["clo"], s["nargs"], s["fn"]) for s in lay[f])
         inf = (info or {}).get(f, {"entry": 0, "implicit": 0, "dropped": []})
-        hdr = "%d%d%d" % (1 if cap_r(fns, f) else 0, inf["entry"], inf["implicit"]) + "".join(".%d" % k for k in inf["dropped"])
+        hdr = "%d%d%d%d" % (1 if cap_r(fns, f) else 0, inf["entry"], inf["implicit"], inf.get("norun", 0)) + "".join(".%d" % k for k in inf["dropped"])
         out.append("%s;%s;%s" % (hdr, ss, ",".join(flatten(case, f, index))))
     return "|".join(out)
 
@@ -757,6 +757,17 @@ def toolchain_safe(case):
       when a deferred call of such an owner recovers a panic and further deferred calls of the owner follow: the owner's
       deferred callees do not call recover() (a caller's deferred function may)."""
     fns = case["fns"]
+    # * LLVM 14 with -opaque-pointers (what the sandbox has to use) mis-sinks stores: two defer statements in sibling
+    #   branches whose LAST stored node field has the same index but a different offset - a closure callee with m >= 1
+    #   arguments `{prev,id,{fn,ctx},a1..am}` and a plain callee with m+1 arguments `{prev,id,a1..am+1}` - get their last
+    #   `store` merged into one `getelementptr` of ONE node type: the closure's context pointer is overwritten by the
+    #   argument (nil dereference in the deferred closure at -O2; SimplifyCFG sinking compares GEPs without their source
+    #   element type). A function never gets both shapes.
+    for f in range(len(fns)):
+        shapes = set((fns[s[1]]["kind"], len(s[2])) for (_, s) in defer_paths(fns, f))
+        for (k, m) in shapes:
+            if k == "clo" and m >= 1 and ("plain", m + 1) in shapes:
+                return False
 
     def rfor_defer_sites(stmts, inside=False):
         n = 0
